@@ -404,6 +404,7 @@ func runC14(c *Ctx) {
 
 	// R5
 	c14Chain(c)
+	c14FlagOnlyWithFreshReply(c)
 }
 
 // c14Raises: the function stores true into directResponse and a value into downstreamRespHeaders on every path.
@@ -689,4 +690,33 @@ func c14Chain(c *Ctx) {
 	c.Check("C14.R5", fk+":rematch-mapping", fn.Pos(), okMap[mr] && okMap[ch], "ReMatchRoute->MatchRoute only after-route; ReChooseHost->ChooseHost only after-choose-host; recorded on every path of the arm", "the status handler does not always map re-match/re-choose to their phases under the matching filter phase"+detail+": the chain has left its cursor on the asking filter, so when the phase is not recorded the pass is never resumed - the filters configured after the asking one are skipped and the next phase starts in the middle of the chain (a denying filter does not run and the request is forwarded)")
 	term := callsIn(fn, false, func(cc *ssa.CallCommon) bool { return methodName(cc) == "cleanStream" })
 	c.Check("C14.R5", fk+":termination-cleans", fn.Pos(), len(term) == 1, "termination ends the stream (cleanStream)", "termination no longer cleans the stream")
+}
+
+// c14FlagOnlyWithFreshReply (R2, package-wide): directResponse sends *the current* downstreamRespHeaders/Data/Trailers
+// into the send-filter phase (processError turns the flag into phase UpFilter). A response object that came from an
+// upstream has been through the send filters already when the retry decision is taken, so raising the flag over it runs
+// every send filter a second time on the response the client receives. Clause: every store of true into
+// downStream.directResponse, anywhere in pkg/proxy, is dominated in the same function by a store that installs
+// downstreamRespHeaders - the flag is only ever raised together with a reply made for this purpose.
+func c14FlagOnlyWithFreshReply(c *Ctx) {
+	n := 0
+	ord := ordCounter{}
+	for _, fn := range c.PkgFuncs("pkg/proxy") {
+		for _, st := range storesToField(fn, "downStream", "directResponse", false) {
+			if b, ok := constBool(st.Val); !ok || !b {
+				continue
+			}
+			n++
+			fresh := false
+			for _, h := range storesToField(fn, "downStream", "downstreamRespHeaders", false) {
+				if instrDominates(h, st) {
+					fresh = true
+				}
+			}
+			c.Check("C14.R2", ord.next(fn, "flag-only-with-fresh-reply"), st.Pos(), fresh, "the reply headers are installed before the flag is raised", "directResponse is raised over whatever response is currently stored: a response that already went through the send filters (an upstream response given up for a retry) is sent through them again, so each send filter runs twice on the response the client receives")
+		}
+	}
+	if n < 3 {
+		c.Unresolved("C14.R2", fmt.Sprintf("stores of true into downStream.directResponse (found %d)", n))
+	}
 }
